@@ -42,7 +42,7 @@ func Translate(dst, src []byte) []byte {
 func TranslateReadingFrames(seq []byte) [3][]byte {
 	var result [3][]byte
 	for i := 0; i < 3; i++ {
-		sub := seq[i:]
+		sub := seq[min(i, len(seq)):]
 		sub = sub[:len(sub)/3*3]
 		result[i] = Translate(nil, sub)
 	}
